@@ -3,6 +3,7 @@ package props
 import (
 	"github.com/acekingke/yaccgo/verifsim/enga"
 	"github.com/acekingke/yaccgo/verifsim/wl"
+	"strings"
 )
 
 // genericShrink proposes simpler inputs, simplest first, in the fixed order of DESIGN 4.1:
@@ -165,6 +166,21 @@ func genericShrink(ctx *Ctx, in *Input, v *Violation) []*Input {
 // shrinkC13 makes the replay self-contained (explicit base text) and tries earlier / simpler damage.
 func shrinkC13(ctx *Ctx, in *Input, v *Violation) []*Input {
 	var out []*Input
+	if v.Class == "hang" && v.Sub == 1 && in.Corrupt != nil {
+		// the undamaged base does not finish: the base is the failing text, judged as it stands
+		text := in.Text
+		if text == "" {
+			bases := c13Bases(ctx)
+			if bi := toInt(in.Extra["base_index"]); bi < len(bases) {
+				text = bases[bi].Text
+			}
+		}
+		if text != "" {
+			c := *in
+			c.Text, c.Corrupt, c.Mode, c.Variant = text, nil, "gen", wl.Variant{Lang: "go"}
+			return []*Input{&c}
+		}
+	}
 	if in.Text == "" && in.Corrupt != nil {
 		bases := c13Bases(ctx)
 		bi := toInt(in.Extra["base_index"])
@@ -202,6 +218,29 @@ func shrinkC13(ctx *Ctx, in *Input, v *Violation) []*Input {
 				out = append(out, &c)
 			}
 			pos += len(lines[li])
+		}
+	}
+	if v.Class == "hang" && in.Corrupt != nil && in.Text != "" {
+		// the text as judged, without a fault plan: from here on whole chunks of lines can go
+		c := *in
+		c.Text = in.Corrupt.Apply(in.Text)
+		c.Corrupt = nil
+		out = append(out, &c)
+	}
+	if v.Class == "hang" && in.Corrupt == nil && in.Text != "" {
+		lines := splitKeep(in.Text)
+		for chunk := len(lines) / 2; chunk >= 1 && len(out) < 120; chunk /= 2 {
+			for at := 0; at < len(lines) && len(out) < 120; at += chunk {
+				end := at + chunk
+				if end > len(lines) {
+					end = len(lines)
+				}
+				c := *in
+				c.Text = strings.Join(lines[:at], "") + strings.Join(lines[end:], "")
+				if c.Text != "" {
+					out = append(out, &c)
+				}
+			}
 		}
 	}
 	if len(in.Scheds) == 1 && in.Scheds[0].Default != "asc" {
